@@ -73,9 +73,7 @@ variable {F : Type}
 def isTimedOut (c : SLink F) (now : Nat) : Bool :=
   if !c.connected then
     if c.established == 0 && decide (now < c.graceDeadline) then false
-    else match c.lastReceived with
-      | none => true
-      | some lr => decide (now - lr ≥ c.connTimeoutMs)
+    else true
   else match c.lastReceived with
     | some lr => decide (now - lr ≥ c.connTimeoutMs)
     | none => false
